@@ -28,7 +28,7 @@ def run(tier):
     ST.sources(chk, tier, own, ["InvRec", "InvCands"], ["StepEnded"], small=True)
     # POO / GPO / PCT / VPCT
     WC.gpo_models(chk, tier, small=True)
-    trs = S.pmap(W.run_wrap, WC.gpo_cfgs(tier, 1900000, patterns=("g", "neg", "tied"))[: (15 if tier == "quick" else 120)] + WC.poo_cfgs(tier, 1950000, patterns=("g", "neg", "tied"))[: (15 if tier == "quick" else 120)])
+    trs = S.pmap(W.run_wrap, WC.gpo_cfgs(tier, 1900000, patterns=("g", "neg", "tied", "negrun"))[: (15 if tier == "quick" else 120)] + WC.poo_cfgs(tier, 1950000, patterns=("g", "neg", "tied", "negrun"))[: (15 if tier == "quick" else 120)])
     chk.validate("Trace_Wrap.tla", "Trace_Wrap.cfg", trs, "wrap", own=own, nontrivial=lambda t: t["learners"] >= 2)
     chk.assumptions = ["recommendation queries are issued after the loop and at a few intermediate rounds; the evaluated set is the specification's own ledger (cells with a recorded reward)"]
     return chk.finish(
